@@ -35,14 +35,17 @@ NewSess(e) == [proto |-> e.proto, tOpen |-> e.t, closed |-> FALSE, closeT |-> Of
                deadline |-> IF e.proto = 4 THEN Off ELSE e.t + cfg.pi + cfg.pt,
                sent |-> <<>>, nrcv |-> 0, sub |-> <<>>, del |-> <<>>,
                created |-> <<>>, flushed |-> {}, cbReg |-> <<>>, cbRun |-> <<>>, lastFlush |-> <<>>, phase |-> "idle",
-               causes |-> {}, pollOut |-> 0, dataOut |-> 0, closeAsked |-> Off, buffered |-> <<>>, closeSeen |-> FALSE, lastPost |-> <<>>, cset |-> {}, grace |-> Off, closeCalled |-> FALSE, parked |-> 0, may |-> {}, v3lossy |-> FALSE, sloppy |-> FALSE, probeT |-> Off, coincide |-> FALSE]
+               causes |-> {}, pollOut |-> 0, dataOut |-> 0, closeAsked |-> Off, buffered |-> <<>>, closeSeen |-> FALSE, lastPost |-> <<>>, cset |-> {}, grace |-> Off, closeCalled |-> FALSE, parked |-> 0, may |-> {}, v3lossy |-> FALSE, sloppy |-> FALSE, nested |-> FALSE, inDispatch |-> FALSE, probeT |-> Off, coincide |-> FALSE]
 
 \* ---------------------------------------------------------------- common per-event checks for sock.* events
 \* lifecycle clauses that apply to every event sampled from a socket
 SockCommon(e, s) ==
     LET r == Rank(e.rs) IN
        (IF r < s.rank THEN <<V("C03", "state_went_backwards", e.sid, [from |-> s.rank, to |-> e.rs, ev |-> e.e])>> ELSE <<>>)
-    \o (IF s.closed /\ e.e # "sock.close" THEN <<V("C03", "event_after_close", e.sid, e.e)>> ELSE <<>>)
+    \* (a drain that completes the flush during which a listener closed the session still belongs to that flush)
+    \* (and the message event of a packet whose own packet-listener closed the session still belongs to that dispatch)
+    \o (IF s.closed /\ e.e # "sock.close" /\ ~(e.e = "sock.drain" /\ s.phase = "srvflushed") /\ ~(e.e = "sock.message" /\ s.inDispatch)
+        THEN <<V("C03", "event_after_close", e.sid, e.e)>> ELSE <<>>)
     \o (IF e.tr # s.tr /\ e.e # "sock.upgrade" /\ ~s.closed THEN <<V("C08", "transport_changed_without_upgrade_event", e.sid, [from |-> s.tr, to |-> e.tr, ev |-> e.e])>> ELSE <<>>)
 
 \* time-driven obligations of a live session, evaluated whenever an event of ANY kind carries time t
@@ -146,14 +149,17 @@ Step ==
                 ns == IF acc THEN s ELSE [s EXCEPT !.sent = SelectSeq(s.sent, LAMBDA m : m.id # e.id)]
             IN /\ S' = Upd(ns)
                /\ viol' = viol \o tv
-                    \o (IF ~acc /\ ~s.closed /\ e.rs = "open" /\ ~s.closeCalled /\ s.parked = 0
+                    \o (IF ~acc /\ ~s.closed /\ e.rs = "open" /\ ~s.closeCalled /\ s.parked = 0 /\ ~s.nested
                         THEN <<V("C01", "send_silently_dropped_while_open", e.sid, e.id)>> ELSE <<>>)
                /\ UNCHANGED <<cfg, Rq, Cn>>
        [] e.e = "sock.flush" /\ known ->
             LET ids == [i \in 1..Len(e.batch) |-> e.batch[i].id]
                 n == Len(ids)
-                okBatch == n <= Len(s.created) /\ SubSeq(s.created, 1, n) = ids
-                ns == [s EXCEPT !.created = IF okBatch THEN SubSeq(s.created, n + 1, Len(s.created)) ELSE <<>>,
+                okBatch == IF s.nested THEN SeqSet(ids) \subseteq SeqSet(s.created)
+                           ELSE n <= Len(s.created) /\ SubSeq(s.created, 1, n) = ids
+                ns == [s EXCEPT !.created = IF ~okBatch THEN <<>>
+                                               ELSE IF s.nested THEN SelectSeq(s.created, LAMBDA x : x \notin SeqSet(ids))
+                                               ELSE SubSeq(s.created, n + 1, Len(s.created)),
                                 !.flushed = s.flushed \cup (SeqSet(ids) \ {0}), !.lastFlush = ids, !.phase = "flushed"]
             IN /\ S' = Upd(ns)
                /\ viol' = viol \o tv \o SockCommon(e, s)
@@ -183,13 +189,13 @@ Step ==
                /\ viol' = viol \o tv
                     \o (IF e.id \in SeqSet(s.cbRun) THEN <<V("C18", "callback_ran_twice", e.sid, e.id)>> ELSE <<>>)
                     \o (IF e.id \notin s.flushed THEN <<V("C18", "callback_before_flush_of_its_packet", e.sid, e.id)>> ELSE <<>>)
-                    \o (IF e.id \notin SeqSet(s.cbRun) /\ ~inOrder THEN <<V("C18", "callbacks_out_of_send_order", e.sid, [ran |-> e.id, next |-> IF want = <<>> THEN 0 ELSE want[1].id])>> ELSE <<>>)
+                    \o (IF e.id \notin SeqSet(s.cbRun) /\ ~inOrder /\ ~s.nested THEN <<V("C18", "callbacks_out_of_send_order", e.sid, [ran |-> e.id, next |-> IF want = <<>> THEN 0 ELSE want[1].id])>> ELSE <<>>)
                     \o (IF s.closed THEN <<V("C18", "callback_after_close", e.sid, e.id)>> ELSE <<>>)
                /\ UNCHANGED <<cfg, Rq, Cn>>
        [] e.e = "sock.packet" /\ known ->
             LET p == e.p
                 wrong == (p.ty = "ping" /\ s.proto = 4) \/ (p.ty = "pong" /\ s.proto = 3)
-            IN /\ S' = Upd(IF wrong THEN [s EXCEPT !.causes = s.causes \cup {"error"}] ELSE s)
+            IN /\ S' = Upd([(IF wrong THEN [s EXCEPT !.causes = s.causes \cup {"error"}] ELSE s) EXCEPT !.inDispatch = (p.ty = "message")])
                /\ viol' = viol \o tv \o SockCommon(e, s) /\ UNCHANGED <<cfg, Rq, Cn>>
        [] e.e = "sock.heartbeat" /\ known ->
             \* a heartbeat accepted at the very instant of the deadline: the property's "within" leaves the
@@ -202,7 +208,7 @@ Step ==
             LET pos == IF \E i \in 1..Len(s.sub) : s.sub[i] = e.id THEN CHOOSE i \in 1..Len(s.sub) : s.sub[i] = e.id ELSE 0
                 last == IF s.del = <<>> THEN 0
                         ELSE LET d == s.del[Len(s.del)] IN IF \E i \in 1..Len(s.sub) : s.sub[i] = d THEN CHOOSE i \in 1..Len(s.sub) : s.sub[i] = d ELSE 0
-            IN /\ S' = Upd(IF e.id = 0 THEN s ELSE [s EXCEPT !.del = Append(s.del, e.id)])
+            IN /\ S' = Upd(IF e.id = 0 THEN [s EXCEPT !.inDispatch = FALSE] ELSE [s EXCEPT !.del = Append(s.del, e.id), !.inDispatch = FALSE])
                /\ viol' = IF e.id = 0 THEN viol \o tv \o SockCommon(e, s)     \* not one of the harness's numbered messages (hostile input that parses as a message)
                              \o (IF e.len > cfg.maxbuf THEN <<V("C10", "oversized_message_delivered", e.sid, [len |-> e.len, limit |-> cfg.maxbuf])>> ELSE <<>>)
                           ELSE viol \o tv \o SockCommon(e, s)
@@ -259,6 +265,11 @@ Step ==
                 rebase(x) == IF n = 0 /\ x # Off /\ x < t THEN Off ELSE x
             IN /\ S' = Put(SS, e.id, [s0 EXCEPT !.parked = n, !.pingDue = rebase(s0.pingDue), !.deadline = rebase(s0.deadline), !.closeAsked = rebase(s0.closeAsked)])
                /\ viol' = viol \o tv /\ UNCHANGED <<cfg, Rq, Cn>>
+       [] e.e = "reent" /\ known ->
+            \* a Send issued from inside the packetCreate listener of another Send completes before it: their relative
+            \* order is not defined by "in call order" (the outer call started first, the inner one finished first)
+            /\ S' = Upd(IF e.event = "packetCreate" /\ e.api = "send" THEN [s EXCEPT !.nested = TRUE, !.sloppy = TRUE] ELSE s)
+            /\ viol' = viol \o tv /\ UNCHANGED <<cfg, Rq, Cn>>
        [] e.e = "cause" /\ known ->
             /\ S' = Upd([s EXCEPT !.causes = s.causes \cup {e.class}]) /\ viol' = viol \o tv /\ UNCHANGED <<cfg, Rq, Cn>>
 
